@@ -9,7 +9,7 @@ import ast
 
 from .. import formula as F
 from ..absint import iter_events
-from ..absvals import Const, Sym, PredV, Ref, TupleV, ElemV, HDict, HObj, HList, PTRUE, desc, show_pred
+from ..absvals import Const, Sym, PredV, LinV, Ref, TupleV, ElemV, HDict, HObj, HList, PTRUE, desc, show_pred
 from ..front import AnalysisError
 from ..harness import (Explorer, make_belief_base, make_epistemic_state, make_query, summary_consistency, delegate,
                        falsification, verification, A, B, QUERY, sat_literals, fn_label, decided, returned_bool,
@@ -712,6 +712,27 @@ def _manager_rows(rep, ex: Explorer, stats):
                 ok = ev.kind == "dict.get.generic" and isinstance(key, ElemV) and key.var == loop_ev.evar and key.role == "key"
                 rep.check(ok, "ROWS.key", f"{site}:{ev.node.lineno}", "row builder key", "every cell of a report row is read from the result entry of that query's own key",
                           extracted=repr(key), required="the key of the query the row is built for", function=site)
+        # ROWS.columns: which component of the result entry lands in which column of the report
+        want = {"index": lambda b: ElemV(b, "key"), "result": lambda b: Sym(("answer", b), "bool"), "inference_timed_out": lambda b: Sym(("timedout", b), "bool")}
+        cols = {}
+        for ev, Q in evs:
+            if ev.kind == "setitem.unknown" and Q and Q[-1][0].fam == QF and isinstance(ev.key, TupleV) and len(ev.key.items) == 2 and isinstance(ev.key.items[1], Const):
+                b = Q[-1][0].evar
+                col = ev.key.items[1].value
+                rowpos = ev.key.items[0]
+                cols[col] = ev
+                if col in want:
+                    rep.check(ev.value == want[col](b), "ROWS.columns", f"{site}:{ev.node.lineno}", f"column {col}", {"index": "the row's index column is the query's key", "result": "the result column is the answer of that query",
+                              "inference_timed_out": "the timed-out column is the timed-out flag of that query"}[col], extracted=repr(ev.value), required=repr(want[col](b)), function=site)
+                if col == "inference_time":
+                    rep.check(F.mentions(desc(ev.value), {("time", b)}), "ROWS.columns", f"{site}:{ev.node.lineno}", "column inference_time", "the time column is derived from the time of that query", extracted=repr(ev.value)[:100], required="time of the query", function=site)
+                okpos = isinstance(rowpos, LinV) and rowpos.lin == (((("pos", b, QF), 1),), 0)
+                rep.check(okpos, "ROWS.columns", f"{site}:{ev.node.lineno}", f"row of column {col}", "all cells of a query go to the row of its position in the submitted order", extracted=repr(rowpos), required="row = position of the query", function=site)
+        for col in ("index", "result", "inference_timed_out", "preprocessing_timed_out"):
+            rep.check(col in cols, "ROWS.columns", site, f"column {col} present", f"the report has the column {col}", extracted=str(sorted(cols)), required=col, function=site)
+        if "preprocessing_timed_out" in cols:
+            v = cols["preprocessing_timed_out"].value
+            rep.check(v == Const(False) or "preprocessing_timed_out" in repr(desc(v)), "ROWS.columns", site, "column preprocessing_timed_out", "the preprocessing flag of the state is reported in every row", extracted=repr(v)[:80], required="state flag", function=site)
     rep.floor("result lookups in the manager's row loop", n, 4)
     stats["manager_lookups"] = n
 
